@@ -23,6 +23,7 @@ type Out struct {
 	Drv  []DrvCase  `json:"drv"`
 	Ovl  []OvlCase  `json:"ovl"`
 	Hist []HistCase `json:"hist"`
+	Cpr  []CprCase  `json:"cpr"`
 }
 
 func ints(b []byte) []int {
@@ -49,6 +50,7 @@ func main() {
 	nDrv := flag.Int("ndrv", 60, "number of driver cases")
 	nOvl := flag.Int("novl", 300, "number of overlap samples")
 	nHist := flag.Int("nhist", 60, "number of multi-queue flush histories")
+	nCpr := flag.Int("ncpr", 80, "number of command-processor relay histories")
 	out := flag.String("out", "", "output JSON file")
 	rep := flag.String("replay", "", "JSON file with cases to replay ({dma:[],drv:[],ovl:[]})")
 	flag.Parse()
@@ -76,11 +78,15 @@ func main() {
 		for _, c := range in.Hist {
 			res.Hist = append(res.Hist, replayHist(c))
 		}
+		for _, c := range in.Cpr {
+			res.Cpr = append(res.Cpr, replayCpr(c))
+		}
 	} else {
 		res.Dma = genDmaCases(*seed, *nDma)
 		res.Drv = genDrvCases(*seed+7777, *nDrv)
 		res.Ovl = genOvlCases(*seed+999, *nOvl)
 		res.Hist = genHistCases(*seed+31337, *nHist)
+		res.Cpr = genCprCases(*seed+4242, *nCpr)
 	}
 	if res.Dma == nil {
 		res.Dma = []DmaCase{}
@@ -93,6 +99,9 @@ func main() {
 	}
 	if res.Hist == nil {
 		res.Hist = []HistCase{}
+	}
+	if res.Cpr == nil {
+		res.Cpr = []CprCase{}
 	}
 	data, _ := json.Marshal(res)
 	if *out == "" {
